@@ -618,6 +618,21 @@ structure TClass where
 def loadChild (dst obj i : Nat) : List Cmd :=
   [getattr 26 obj kTransforms, p (.load 26 26 kModules), p (.load dst 26 (100 + i))]
 
+/-- `CompositeTransform.__copy__` — spatial/composite.py @96-108 (repair of F-15f / F-15g): `super().__copy__()`, then
+    `copy._transforms = ModuleDict(OrderedDict([(name, shallow_copy(t)) for name, t in self.named_transforms()]))`:
+    the copy owns a new ModuleDict holding *shallow copies* of the `n` children (each made by the leaf rule: own
+    `_parameters/_buffers/_non_persistent_buffers_set/_modules` containers, parameter and buffer objects shared). -/
+def compositeCopy (n : Nat) (dst src : Nat) : List Cmd :=
+  transformCopy dst src ++
+  [p (.newNode 30 tModule 0), p (.newNode 31 tDict 0), p (.store 30 kModules 31)] ++
+  (List.range n).flatMap (fun i => loadChild 20 src i ++ transformCopy 32 20 ++ [p (.store 31 (100 + i) 32)]) ++
+  [setattr dst kTransforms 30]
+
+/-- `shallow_copy(self)` for a transform of class `c`.  `sharedChildren = true` gives the composite copy of before the
+    F-15f/g repair (base `__copy__` only: child transforms shared), kept for the documenting refutation theorem. -/
+def copyOfClassWith (sharedChildren : Bool) (composite : Nat) (dst src : Nat) : List Cmd :=
+  if composite = 0 ∨ sharedChildren then transformCopy dst src else compositeCopy composite dst src
+
 /-- `clear_buffers()` for a *leaf* transform (children of composites are leaves in the table) -/
 def clearBuffersLeaf (nonrigid : Bool) (obj : Nat) : List Cmd :=
   if nonrigid then [delattrIfPresent obj kU, delattrIfPresent obj kV] else []
@@ -633,11 +648,14 @@ def conditionSetLeaf (nonrigid : Bool) (obj args : Nat) : List Cmd :=
   clearBuffersLeaf nonrigid obj ++ [setattr obj kArgs args, p (.newNode 21 tDict 0), setattr obj kKwargs 21]
 
 /-- `condition(*args)` — base.py @89-95: `shallow_copy(self).condition_(*args)`;
-    CompositeTransform.condition_ (composite.py @149-155) also conditions every (shared) child. r1 = args tuple -/
-def conditionProg (c : TClass) (childNonrigid : Nat → Bool) : Prog := fun _ =>
-  transformCopy 10 0 ++ clearBuffers c childNonrigid 10 ++
+    CompositeTransform.condition_ (composite.py @163-169) also conditions every child of the receiver — which, for the
+    shallow copy made by `CompositeTransform.__copy__`, are the copy's own child copies. r1 = args tuple -/
+def conditionProgOf (sharedChildren : Bool) (c : TClass) (childNonrigid : Nat → Bool) : Prog := fun _ =>
+  copyOfClassWith sharedChildren c.composite 10 0 ++ clearBuffers c childNonrigid 10 ++
   [setattr 10 kArgs 1, p (.newNode 21 tDict 0), setattr 10 kKwargs 21] ++
   (List.range c.composite).flatMap (fun i => loadChild 20 10 i ++ conditionSetLeaf (childNonrigid i) 20 1)
+
+def conditionProg (c : TClass) (childNonrigid : Nat → Bool) : Prog := conditionProgOf false c childNonrigid
 
 /-- is the `params` attribute of node `self` callable (a Module — incl. a linked transform — or a function)? -/
 def paramsCallable (st : OState) (self : Nat) : Bool :=
@@ -709,7 +727,9 @@ def inverseLeaf (st : OState) (svf : Bool) (look dst src : Nat) (link ub : Bool)
 def inverseProg (c : TClass) (childSvf childInv : Nat → Bool) (link ub : Bool) (invertFlag : Nat) : Prog := fun st =>
   if ¬ c.invertible then [p .raise]
   else if c.sequential then
-    transformCopy 10 0 ++
+    -- `copy = shallow_copy(self)` (composite copy incl. child copies), then a new ModuleDict of the inverted
+    -- children of `self` replaces the copy's `_transforms`
+    compositeCopy c.composite 10 0 ++
     [p (.newNode 30 tModule 0), p (.newNode 31 tDict 0), p (.store 30 kModules 31)] ++
     -- `for name, transform in reversed(self.named_transforms())`: the last child is inverted first
     ((List.range c.composite).reverse).flatMap (fun i =>
@@ -729,10 +749,10 @@ def gridSetBase (c : TClass) (childNonrigid : Nat → Bool) (obj grid : Nat) (sa
     DenseVectorFieldTransform.grid_ nonrigid.py @119-143 (params is a Tensor: resample, `super().grid_`, `data_(new)`),
     StationaryVelocityFieldTransform.grid_ @247-256 (a *copy* of the `exp` child gets the new flag when it differs),
     BSplineTransform.grid_ bspline.py @86-142 (`self._grid = grid`; `data_(subdivided)` when `subdivide`). -/
-def gridProg (c : TClass) (childNonrigid : Nat → Bool) (sameGrid subdivide valid : Bool) (ac : Nat) : Prog := fun st =>
+def gridProgOf (sharedChildren : Bool) (c : TClass) (childNonrigid : Nat → Bool) (sameGrid subdivide valid : Bool) (ac : Nat) : Prog := fun st =>
   let self := st.regs 0
   let isTensor := let t := (st.heap.node (attrNode st self kParams)).tag; t = tTensor ∨ t = tParameter
-  transformCopy 10 0 ++
+  copyOfClassWith sharedChildren c.composite 10 0 ++
   (if c.bspline then
      -- `valid` = the new grid passes the checks made when params is a Tensor (align_corners, same domain, size n or 2n-1)
      (if isTensor ∧ ¬ valid then [p .raise] else []) ++
@@ -753,6 +773,12 @@ def gridProg (c : TClass) (childNonrigid : Nat → Bool) (sameGrid subdivide val
         [getattr 27 10 kExp, p (.copyNode 28 27), p (.storeImm 28 kAlignCorners ac), setattr 10 kExp 28]
       else [])
    else gridSetBase c childNonrigid 10 1 sameGrid)
+
+def gridProg (c : TClass) (childNonrigid : Nat → Bool) (sameGrid subdivide valid : Bool) (ac : Nat) : Prog :=
+  gridProgOf false c childNonrigid sameGrid subdivide valid ac
+
+/-- `copy.copy(transform)` -/
+def copyProg (c : TClass) : Prog := fun _ => copyOfClassWith false c.composite 10 0
 
 /-- `matrix(m)` — base.py @471-477: `shallow_copy(self).matrix_(arg)`; `matrix_` of HomogeneousTransform
     (linear.py @49-55) is `data_(arg)`, of EulerRotation / QuaternionRotation (@216-…, @306-…) `data_(new tensor)`. -/
@@ -870,6 +896,15 @@ def canonCompositeRun (grid : Bool) : OState :=
   let st := initState canonCompositeHeap (fun r => if r = 0 then 1 else if r = 1 then (if grid then 14 else 13) else 0)
   runProg st (if grid then gridProg compositeClass (fun _ => true) false false true 2
               else conditionProg compositeClass (fun _ => true))
+
+/-- the same calls with the composite copy of before the F-15f/g repair (children shared) -/
+def canonCompositeRunOld (grid : Bool) : OState :=
+  let st := initState canonCompositeHeap (fun r => if r = 0 then 1 else if r = 1 then (if grid then 14 else 13) else 0)
+  runProg st (if grid then gridProgOf true compositeClass (fun _ => true) false false true 2
+              else conditionProgOf true compositeClass (fun _ => true))
+
+def canonCompositeChangedOld (grid : Bool) : List Nat :=
+  (List.range 26).filter (fun n => (canonCompositeRunOld grid).heap.node n != canonCompositeHeap.node n)
 
 def canonCompositeChanged (grid : Bool) : List Nat :=
   (List.range 26).filter (fun n => (canonCompositeRun grid).heap.node n != canonCompositeHeap.node n)
